@@ -223,6 +223,22 @@ class Generator {
     rec(Frame{});
   }
 
+  // Scope skeletons: every formula with <= budget internal nodes built from  x=x (x in {a,b}),  F & F  and  ∀x∈X1 F (x in {a,b}).
+  // Names are NOT canonical here: the family contains every shadowing, every use outside its binder, every re-declaration of a
+  // name in a sibling scope at the same or at a different depth - the whole behaviour of the scope bookkeeping on two names.
+  template <class Sink>
+  void scopeSkeletons(int budget, Sink&& sink) const {
+    std::vector<std::vector<Node>> byBudget(static_cast<size_t>(budget) + 1);
+    const Node dom = leaf(K::Global, "X1");
+    for (const char* x : { "a", "b" }) byBudget[0].push_back(mk(K::Eq, { leaf(K::Local, x), leaf(K::Local, x) }));
+    for (int n = 1; n <= budget; ++n) {
+      auto& out = byBudget[static_cast<size_t>(n)];
+      for (const char* x : { "a", "b" }) for (auto& f : byBudget[static_cast<size_t>(n - 1)]) out.push_back(mk(K::Forall, { leaf(K::Local, x), dom, f }));
+      for (int i = 0; i <= n - 1; ++i) for (auto& l : byBudget[static_cast<size_t>(i)]) for (auto& r : byBudget[static_cast<size_t>(n - 1 - i)]) out.push_back(mk(K::And, { l, r }));
+    }
+    for (auto& lvl : byBudget) for (auto& f : lvl) sink(Node(f));
+  }
+
   // Representatives of depth 1 (leaves + repsPerKey well-typed terms per (constructor, arity, type)), computed once by streaming -
   // call it in the parent process before forking so that the workers share it.
   mutable std::optional<Pool> depth2Pool;
